@@ -83,11 +83,12 @@ func (c *c11Odometer) next() bool {
 // tree helpers (independent walker)
 
 type c11Params struct {
-	Alphabet   int `json:"alphabet"`    // number of distinct URLs children can get
-	MaxKids    int `json:"max_kids"`    // children added per post-processing step
-	MaxNodes   int `json:"max_nodes"`   // no expansion beyond this many nodes
-	MaxPasses  int `json:"max_passes"`  // passes per history
-	SeedInAlph bool `json:"seed_in_alph"` // the seed's own URL is one of the child URLs
+	Alphabet   int  `json:"alphabet"`       // number of distinct URLs children can get
+	MaxKids    int  `json:"max_kids"`       // children added per post-processing step
+	MaxNodes   int  `json:"max_nodes"`      // no expansion beyond this many nodes
+	MaxPasses  int  `json:"max_passes"`     // passes per history
+	SeedInAlph bool `json:"seed_in_alph"`   // the seed's own URL is one of the child URLs
+	Calm       bool `json:"calm,omitempty"` // no filter removes, seencheck skips or fetch failures: only the post-processing outcomes vary
 }
 
 func c11URL(i int) *URL {
@@ -207,8 +208,8 @@ type c11Run struct {
 	log      []string
 	// statistics
 	dupSeen, redirSeen, dedupeRemovedWithKids bool
-	maxDepth                               int64
-	ops                                    int
+	maxDepth                                  int64
+	ops                                       int
 }
 
 func (r *c11Run) fail(facet string, seed *Item, format string, args ...any) {
@@ -325,6 +326,14 @@ func (r *c11Run) workNodes(seed *Item) (int64, []*Item) {
 }
 
 // pass runs one trip through preprocessor, archiver, postprocessor and finisher. Returns true when finished.
+// choose consults the chooser, except in calm mode for the decisions that cut work short (always "keep / fetch ok").
+func (r *c11Run) choose(n int, what string) int {
+	if r.p.Calm && what != "post" {
+		return 0
+	}
+	return r.ch.choose(n, what)
+}
+
 func (r *c11Run) pass(seed *Item) bool {
 	// ---- preprocessor
 	depth, items := r.workNodes(seed)
@@ -336,7 +345,7 @@ func (r *c11Run) pass(seed *Item) bool {
 	early := false
 	for _, it := range items {
 		if it.IsSeed() {
-			switch r.ch.choose(4, "pre-seed") {
+			switch r.choose(4, "pre-seed") {
 			case 0, 1:
 				r.log = append(r.log, "pre:keep("+it.id+")")
 			case 2:
@@ -349,7 +358,7 @@ func (r *c11Run) pass(seed *Item) bool {
 				early = true
 			}
 		} else {
-			if r.ch.choose(4, "pre-child") == 3 {
+			if r.choose(4, "pre-child") == 3 {
 				r.log = append(r.log, "pre:remove("+it.id+")")
 				it.GetParent().RemoveChild(it)
 			} else {
@@ -370,7 +379,7 @@ func (r *c11Run) pass(seed *Item) bool {
 			seed.SetStatus(ItemCompleted)
 		} else {
 			for _, it := range items {
-				if it.GetStatus() == ItemFresh && r.ch.choose(4, "seen") == 3 {
+				if it.GetStatus() == ItemFresh && r.choose(4, "seen") == 3 {
 					r.log = append(r.log, "seen("+it.id+")")
 					it.SetStatus(ItemSeen)
 				}
@@ -397,7 +406,7 @@ func (r *c11Run) pass(seed *Item) bool {
 			if it.GetStatus() != ItemPreProcessed {
 				continue
 			}
-			if r.ch.choose(4, "archive") == 3 {
+			if r.choose(4, "archive") == 3 {
 				r.log = append(r.log, "arch:fail("+it.id+")")
 				it.SetStatus(ItemFailed)
 			} else {
@@ -423,7 +432,7 @@ func (r *c11Run) pass(seed *Item) bool {
 					opts += r.p.Alphabet * r.p.Alphabet // two children
 				}
 			}
-			o := r.ch.choose(opts, "post")
+			o := r.choose(opts, "post")
 			switch {
 			case o == 0:
 				r.log = append(r.log, "post:completed("+it.id+")")
@@ -533,7 +542,23 @@ func TestVerif_C11_History(t *testing.T) {
 			MaxPasses:  rapid.IntRange(2, 7).Draw(t, "maxpasses"),
 			SeedInAlph: rapid.Bool().Draw(t, "seedinalph"),
 		}}
-		c.Choices = rapid.SliceOfN(rapid.IntRange(0, 23), 0, 80).Draw(t, "choices")
+		if rapid.Bool().Draw(t, "uniform") {
+			// rapid's integer generators favour small values, which here means "keep / archive / completed / redirect":
+			// every other case takes its choices uniformly (expanded from one drawn 64-bit value), so that wide and
+			// deep trees with uneven branches are as likely as narrow ones
+			x := rapid.Uint64().Draw(t, "choice-seed")
+			n := rapid.IntRange(10, 80).Draw(t, "nchoices")
+			for i := 0; i < n; i++ {
+				x += 0x9e3779b97f4a7c15
+				z := x
+				z = (z ^ (z >> 30)) * 0xbf58476d1ce4e5b9
+				z = (z ^ (z >> 27)) * 0x94d049bb133111eb
+				z ^= z >> 31
+				c.Choices = append(c.Choices, int(z%24))
+			}
+		} else {
+			c.Choices = rapid.SliceOfN(rapid.IntRange(0, 23), 0, 80).Draw(t, "choices")
+		}
 		veriflib.Guard("C11", "C11/history", c, func() { propC11History(t, c) })
 	})
 }
@@ -580,7 +605,14 @@ func TestVerif_C11_Exhaustive(t *testing.T) {
 	if veriflib.Replaying() {
 		t.Skip()
 	}
-	p := c11Params{Alphabet: veriflib.N("C11_ENUM_ALPHABET", 3, 3), MaxKids: 2, MaxNodes: veriflib.N("C11_ENUM_NODES", 5, 6), MaxPasses: veriflib.N("C11_ENUM_PASSES", 3, 4), SeedInAlph: true}
+	c11Enumerate(t, c11Params{Alphabet: veriflib.N("C11_ENUM_ALPHABET", 3, 3), MaxKids: 2, MaxNodes: veriflib.N("C11_ENUM_NODES", 5, 6), MaxPasses: veriflib.N("C11_ENUM_PASSES", 3, 4), SeedInAlph: true})
+	// second scope: four URLs and one more pass, restricted to the post-processing outcomes (calm): reaches trees whose
+	// branches advance unevenly (one branch complete while another is still two levels from its leaves)
+	c11Enumerate(t, c11Params{Alphabet: 4, MaxKids: 2, MaxNodes: veriflib.N("C11_ENUM_CALM_NODES", 6, 7), MaxPasses: veriflib.N("C11_ENUM_CALM_PASSES", 4, 5), SeedInAlph: false, Calm: true})
+	veriflib.SetExhaustive("C11/exhaustive")
+}
+
+func c11Enumerate(t *testing.T, p c11Params) {
 	type state struct {
 		canon string
 		path  [][]int
@@ -610,7 +642,7 @@ func TestVerif_C11_Exhaustive(t *testing.T) {
 					nontriv++
 				}
 				vec := append([]int(nil), od.vals[:od.pos]...)
-				veriflib.Record("C11/exhaustive", st.canon+"|"+fmt.Sprint(vec), nt, []string{fmt.Sprintf("pass:%d", level)}, func() any {
+				veriflib.Record("C11/exhaustive", st.canon+"|"+fmt.Sprint(vec), nt, []string{fmt.Sprintf("pass:%d", level), fmt.Sprintf("calm:%v", p.Calm)}, func() any {
 					return map[string]any{"start": st.canon, "choices": vec, "result": canon}
 				})
 				if !finished && !visited[canon] {
@@ -638,7 +670,5 @@ func TestVerif_C11_Exhaustive(t *testing.T) {
 		}
 		frontier = next
 	}
-	veriflib.SetExhaustive("C11/exhaustive")
-	veriflib.Class("C11/exhaustive", fmt.Sprintf("bounds:alphabet=%d,max_nodes=%d,passes=%d", p.Alphabet, p.MaxNodes, p.MaxPasses))
+	veriflib.Class("C11/exhaustive", fmt.Sprintf("bounds:alphabet=%d,max_nodes=%d,passes=%d,calm=%v", p.Alphabet, p.MaxNodes, p.MaxPasses, p.Calm))
 }
-
